@@ -467,17 +467,14 @@ Definition run_fields (f : list bytes) : bytes * bool :=
   else if bytes_eqb op (s2b "vhotp") then
     let p := parse_param (a 4%nat) in
     let sk := skew_of p default_hotp_param in
-    (r_verdict (validate_hotp (unhx (a 1%nat)) (unhx (a 2%nat)) (parse_N (a 3%nat)) p),
-     (10 <? sk) || (parse_N (a 3%nat) + sk <? two64))
+    (r_verdict (validate_hotp (unhx (a 1%nat)) (unhx (a 2%nat)) (parse_N (a 3%nat)) p), true)
   else if bytes_eqb op (s2b "gtotp") then
     let t := parse_time_sec (a 2%nat) in
-    (r_bytes (generate_totp (unhx (a 1%nat)) t (parse_param (a 3%nat))), (0 <=? t)%Z && (t <? two62z)%Z)
+    (r_bytes (generate_totp (unhx (a 1%nat)) t (parse_param (a 3%nat))), true)
   else if bytes_eqb op (s2b "vtotp") then
     let t := parse_time_sec (a 3%nat) in
     let p := parse_param (a 4%nat) in
-    let sk := skew_of p default_totp_param in
-    (r_verdict (validate_totp (unhx (a 1%nat)) (unhx (a 2%nat)) t p),
-     (0 <=? t)%Z && (t <? two62z)%Z && ((10 <? sk) || (sk <=? Z.to_N t / period_of p)))
+    (r_verdict (validate_totp (unhx (a 1%nat)) (unhx (a 2%nat)) t p), true)
   else if bytes_eqb op (s2b "gocra") || bytes_eqb op (s2b "gocra_raw") then
     (r_bytes (generate_ocra (unhx (a 1%nat)) (parse_suite (a 2%nat)) (parse_input (a 3%nat))), true)
   else if bytes_eqb op (s2b "vocra") then
@@ -560,13 +557,18 @@ Definition spec_fields (f : list bytes) : option bytes :=
   if bytes_eqb op (s2b "ghotp") then Some (r_bytes (spec_ghotp (unhx (a 1%nat)) (parse_N (a 2%nat)) (parse_param (a 3%nat))))
   else if bytes_eqb op (s2b "gtotp") then
     let p := match parse_param (a 3%nat) with Some p => p | None => mkParam 6 30 0 0 end in
-    Some (r_bytes (spec_ghotp (unhx (a 1%nat)) (Z.to_N (parse_time_sec (a 2%nat)) / eff30 (p_period p)) (Some p)))
+    let t := parse_time_sec (a 2%nat) in
+    if (0 <=? t)%Z && (t <? two62z)%Z
+    then Some (r_bytes (spec_ghotp (unhx (a 1%nat)) (Z.to_N t / eff30 (p_period p)) (Some p))) else None
   else if bytes_eqb op (s2b "vhotp") then
     let p := match parse_param (a 4%nat) with Some p => p | None => mkParam 6 0 2 0 end in
-    Some (spec_window (unhx (a 1%nat)) (unhx (a 2%nat)) (parse_N (a 3%nat)) p)
+    if (10 <? p_skew p) || (parse_N (a 3%nat) + p_skew p <? two64)
+    then Some (spec_window (unhx (a 1%nat)) (unhx (a 2%nat)) (parse_N (a 3%nat)) p) else None
   else if bytes_eqb op (s2b "vtotp") then
     let p := match parse_param (a 4%nat) with Some p => p | None => mkParam 6 30 0 0 end in
-    Some (spec_window (unhx (a 1%nat)) (unhx (a 2%nat)) (Z.to_N (parse_time_sec (a 3%nat)) / eff30 (p_period p)) p)
+    let t := parse_time_sec (a 3%nat) in
+    if (0 <=? t)%Z && (t <? two62z)%Z && ((10 <? p_skew p) || (p_skew p <=? Z.to_N t / eff30 (p_period p)))
+    then Some (spec_window (unhx (a 1%nat)) (unhx (a 2%nat)) (Z.to_N t / eff30 (p_period p)) p) else None
   else if bytes_eqb op (s2b "gocra") || bytes_eqb op (s2b "gocra_raw") then
     let cfg := parse_suite (a 2%nat) in
     if enum_ok_b cfg then Some (r_bytes (spec_gocra (unhx (a 1%nat)) cfg (parse_input (a 3%nat)))) else None
